@@ -137,17 +137,25 @@ GOps == {"gufunc", "gunary", "garrfn", "gmethod"}
 CopyOps == GOps \cup {"in_units", "to", "to_value", "in_base", "in_cgs", "in_mks", "to_equivalent", "binop", "ufunc", "unary", "copy",
             "concatenate", "dot", "clip", "umul", "udiv", "upow", "ubase", "ucoeff", "ucopy", "usimplify", "units_simplify"}
 InplaceOps == {"convert_to_units", "convert_to_base", "convert_to_cgs", "convert_to_mks", "convert_to_equivalent",
-               "iop", "ufunc_out", "unary_out", "setitem0", "setitemall", "copyto", "put", "putmask", "fill_diagonal"}
+               "iop", "ufunc_out", "unary_out", "setitem0", "setitemall", "copyto", "put", "putmask", "fill_diagonal", "gin"}
+\* gin = generic in-place family (frame-only: T does not transcribe it; P2/P3/P4 are evaluated on the observation):
+\*   f = the call form (array functions and methods with out=, ufunc call/reduce/accumulate/outer with out=, item assignment,
+\*       np.put/place/putmask/put_along_axis/fill_diagonal/copyto, ndarray.fill/sort/put, np.add.at)
+\*   e = variant: "ok" | "ro" read-only target | NumPy-level refusals named by the form itself (out-of-bounds index, wrong
+\*       number of outputs, casting="no", mask of the wrong size, ...); wrong-shaped and wrong-dtype targets arise from the
+\*       choice of the target object.  The target is c.o when given (out= forms), otherwise c.x.
 IsInplace(c) == c.op \in InplaceOps
 \* the target of an in-place call
-Target(c) == IF c.op \in {"ufunc_out", "unary_out"} THEN c.o ELSE c.x
+Target(c) == IF c.op \in {"ufunc_out", "unary_out"} \/ (c.op = "gin" /\ c.o # "") THEN c.o ELSE c.x
 \* the corresponding copying call ("" = the statement names none)
 TwinOp(c) ==
   CASE c.op = "convert_to_units" -> "in_units" [] c.op = "convert_to_base" -> "in_base"
     [] c.op = "convert_to_cgs" -> "in_cgs" [] c.op = "convert_to_mks" -> "in_mks"
     [] c.op = "convert_to_equivalent" -> "to_equivalent" [] c.op = "iop" -> "binop" [] c.op = "ufunc_out" -> "ufunc"
     [] c.op = "unary_out" -> "unary" [] c.op \in {"setitem0", "setitemall"} -> "to_target_unit"
-    [] c.op = "copyto" -> "copy_src" [] OTHER -> ""
+    [] c.op = "copyto" -> "copy_src"
+    \* out= forms of the generic family: the same call without out= (only for the plain variant)
+    [] c.op = "gin" /\ c.o # "" /\ c.e = "ok" -> "gcopy" [] OTHER -> ""
 
 \* operand y may be an object or the bare number 2
 YLive(S, y) == y = "two" \/ (y \in ArrSlots /\ Live(S, y) /\ IsArr(S, y))
@@ -355,6 +363,8 @@ Apply(S, c) ==
     [] c.op = "units_simplify" -> Ok(S, Obj("U", "", S[x].u, <<>>))
     \* generic copying families: whatever they return or refuse, the state is what it was (the result is not kept)
     [] c.op \in GOps -> Ok(S, Dead)
+    \* generic in-place family: outcome not transcribed (offered in single-step instances only)
+    [] c.op = "gin" -> Ok(S, Dead)
     [] OTHER -> Raise(S)
 
 \* a call is offered when its operands exist
@@ -368,10 +378,12 @@ Enabled(S, c) ==
   /\ c.op \in {"setitem0", "setitemall", "put", "putmask", "copyto"} => S[c.x].k = "A"
   /\ c.op \in {"concatenate", "dot"} => (S[c.x].k = "A" /\ S[c.y].k = "A")
   /\ c.op \in GOps => IsArr(S, c.x)
+  /\ c.op = "gin" => (IsArr(S, c.x) /\ (c.o = "" => S[c.x].k = "A"))
 
 (* ======================= property side (P) ======================= *)
 (* B, Af : projections of every slot before / after the call (R = the object that was R before the call);  *)
-(* ex : the call raised;  tw = [ex, n] : the corresponding copying call on copies of the operands.            *)
+(* ex : the call raised;  tw = [ex, n, npw] : the corresponding copying call on copies of the operands; npw = the   *)
+(* same spelling on BARE ndarray copies raised after NumPy itself had written into the target (generic family only) *)
 Same(B, Af, o) == B[o] = Af[o]
 SameNumbersUnit(B, Af, o) == B[o].n = Af[o].n /\ B[o].u = Af[o].u /\ B[o].k = Af[o].k
 LiveSet(B) == {o \in Slots : B[o].k # "-"}
@@ -383,13 +395,19 @@ P1_Bad(B, Af, c) == IF IsInplace(c) THEN {} ELSE {o \in LiveSet(B) : ~Same(B, Af
 \* C18 clause 2: an in-place call that raises leaves numbers and unit of its target unchanged (dtype/bytes are free:
 \* integer out= buffers are retyped before validation); objects that do not share its memory are untouched; an object
 \* sharing its memory keeps unit and dtype, and its numbers unless the target was retyped
-P2_Target(B, Af, c, ex) == (IsInplace(c) /\ ex) => SameNumbersUnit(B, Af, Target(c))
-P2_Others(B, Af, c, ex) ==
+\* (where plain NumPy, called the same way on bare arrays, writes part of the data before it refuses - e.g. concatenate into
+\*  an integer out= copies the integer chunks and then rejects the float chunk - the numbers are NumPy's doing; the unit
+\*  still must not change)
+P2_Target(B, Af, c, ex, tw) ==
+  (IsInplace(c) /\ ex) =>
+     IF c.op = "gin" /\ tw.npw THEN Af[Target(c)].u = B[Target(c)].u /\ Af[Target(c)].k = B[Target(c)].k
+     ELSE SameNumbersUnit(B, Af, Target(c))
+P2_Others(B, Af, c, ex, tw) ==
   (IsInplace(c) /\ ex) =>
      LET t == Target(c) IN
      /\ \A o \in LiveSet(B) \ Alias(t) : Same(B, Af, o)
      /\ \A o \in (Alias(t) \ {t}) \cap LiveSet(B) :
-          Af[o].u = B[o].u /\ Af[o].dt = B[o].dt /\ (Af[t].dt = B[t].dt => Af[o].n = B[o].n)
+          Af[o].u = B[o].u /\ Af[o].dt = B[o].dt /\ ((Af[t].dt = B[t].dt /\ ~(c.op = "gin" /\ tw.npw)) => Af[o].n = B[o].n)
 
 \* C18 clause 3a: an in-place call that succeeds changes only its target
 OutsideOverlap(t, o) == IF t = "V" /\ o = "A" THEN {1, 4} ELSE {}
@@ -404,7 +422,7 @@ P3_OnlyTarget(B, Af, c, ex) ==
 \* C18 clause 3b: ... and yields exactly the numbers of the corresponding copying call
 TwinNums(c, an, bn, tn) ==
   CASE c.op = "setitem0" -> Len(tn) = 1 /\ an[1] = tn[1] /\ \A i \in 2..Len(an) : an[i] = bn[i]
-    [] c.op \in {"setitemall", "copyto", "ufunc_out", "unary_out"} -> (Len(tn) = Len(an) \/ Len(tn) = 1) /\ an = Bc(tn, Len(an))
+    [] c.op \in {"setitemall", "copyto", "ufunc_out", "unary_out", "gin"} -> (Len(tn) = Len(an) \/ Len(tn) = 1) /\ an = Bc(tn, Len(an))
     [] OTHER -> an = tn
 \* (item assignment into an integer array truncates like NumPy does: not a C18 matter)
 \* (integers too large to be projected exactly - the garbage an integer base array reads after its view was retyped -
@@ -414,6 +432,8 @@ Sane(B, o) == o \notin Slots \/ ~(IsInt(B[o].dt) /\ \E j \in DOMAIN B[o].n : IsO
 \*  and smaller data the two differ by rounding - a precision matter (C17), not a frame condition)
 TwinApplies(B, c) == /\ TwinOp(c) # "" /\ ~(c.op \in {"setitem0", "setitemall", "copyto"} /\ IsInt(B[Target(c)].dt))
                      /\ ~(c.op = "convert_to_equivalent" /\ SizeOf(B[Target(c)].dt) # 8)
+                     \* (generic out= forms: NumPy does not promise copy semantics when out= overlaps an operand)
+                     /\ ~(c.op = "gin" /\ (c.x \in Alias(Target(c)) \/ c.y \in Alias(Target(c))))
                      /\ Sane(B, c.x) /\ Sane(B, c.y) /\ Sane(B, Target(c))
 \* (an in-place call computes in the target's own item size, the copying call possibly wider: where a result is not a
 \*  small exact number - overflow to inf in float16/float32, wrap-around of int16 - the two differ by range/precision,
@@ -429,21 +449,22 @@ OffIn(B, c) ==
   IF opnd # {} THEN "operand" ELSE IF Target(c) \in Slots /\ HasOff(B[Target(c)].u) THEN "target-only" ELSE "none"
 
 FailedClauses(B, Af, c, ex, tw) ==
-  (IF P1_NoMut(B, Af, c) THEN {} ELSE {"P1_NoMut"}) \cup (IF P2_Target(B, Af, c, ex) THEN {} ELSE {"P2_FailIntact"})
-  \cup (IF P2_Others(B, Af, c, ex) THEN {} ELSE {"P2_FailOthers"}) \cup (IF P3_OnlyTarget(B, Af, c, ex) THEN {} ELSE {"P3_OnlyTarget"})
+  (IF P1_NoMut(B, Af, c) THEN {} ELSE {"P1_NoMut"}) \cup (IF P2_Target(B, Af, c, ex, tw) THEN {} ELSE {"P2_FailIntact"})
+  \cup (IF P2_Others(B, Af, c, ex, tw) THEN {} ELSE {"P2_FailOthers"}) \cup (IF P3_OnlyTarget(B, Af, c, ex) THEN {} ELSE {"P3_OnlyTarget"})
   \cup (IF P4_Twin(B, Af, c, ex, tw) THEN {} ELSE {"P4_Twin"})
 
 (* ---- model-level: what the transcription itself says (the model reproduces today's code) ---- *)
 ModelTwin(S, c) ==
   LET t == Target(c) IN
   CASE TwinOp(c) \in {"in_units", "in_base", "in_cgs", "in_mks", "to_equivalent", "unary"} ->
-         LET r == Apply(S, [c EXCEPT !.op = TwinOp(c), !.o = ""]) IN [ex |-> r.ex, n |-> r.res.n]
+         LET r == Apply(S, [c EXCEPT !.op = TwinOp(c), !.o = ""]) IN [ex |-> r.ex, n |-> r.res.n, npw |-> FALSE]
     [] TwinOp(c) \in {"binop", "ufunc"} ->
-         LET r == BinaryOf(S, c) IN [ex |-> r.ex, n |-> r.n]
+         LET r == BinaryOf(S, c) IN [ex |-> r.ex, n |-> r.n, npw |-> FALSE]
     [] TwinOp(c) = "to_target_unit" ->
          LET uy == YUnit(S, c.y) IN
-         IF YBare(c.y) \/ (IsDless(uy) /\ uy.sc = ROne) THEN [ex |-> FALSE, n |-> YNums(S, c.y)]
-         ELSE IF uy.dim # S[t].u.dim THEN [ex |-> TRUE, n |-> <<>>] ELSE [ex |-> FALSE, n |-> ConvNums(YNums(S, c.y), uy, S[t].u)]
-    [] TwinOp(c) = "copy_src" -> [ex |-> FALSE, n |-> S[c.y].n]
-    [] OTHER -> [ex |-> FALSE, n |-> <<>>]
+         IF YBare(c.y) \/ (IsDless(uy) /\ uy.sc = ROne) THEN [ex |-> FALSE, n |-> YNums(S, c.y), npw |-> FALSE]
+         ELSE IF uy.dim # S[t].u.dim THEN [ex |-> TRUE, n |-> <<>>, npw |-> FALSE] ELSE [ex |-> FALSE, n |-> ConvNums(YNums(S, c.y), uy, S[t].u), npw |-> FALSE]
+    [] TwinOp(c) = "copy_src" -> [ex |-> FALSE, n |-> S[c.y].n, npw |-> FALSE]
+    [] TwinOp(c) = "gcopy" -> [ex |-> FALSE, n |-> S[t].n, npw |-> FALSE]      \* (not transcribed: consistent with Apply leaving the state as it is)
+    [] OTHER -> [ex |-> FALSE, n |-> <<>>, npw |-> FALSE]
 =============================================================================
